@@ -446,6 +446,9 @@ Next ==
   \/ (Internal /\ UNCHANGED hist)
 
 Spec == Init /\ [][Next]_vars
+\* liveness: with fair scheduling of every goroutine and of the broker, and finitely many faults,
+\* the pipeline drains: this is what makes Close() return (shutdown waits for inFlight = 0)
+LiveSpec == Spec /\ WF_vars(Next)
 
 -----------------------------------------------------------------------------
 RECURSIVE FirstCopies(_, _)
@@ -469,6 +472,8 @@ Quiescent ==
   /\ \A p \in Parts : ppQ[p] = <<>> /\ pp[p].todo = <<>>
   /\ \A i \in BpIds : bps[i].used => (bps[i].in = <<>> /\ BufEmpty(bps[i].buffer) /\ ~bps[i].out.busy)
 QuiescentDone == Quiescent => ((\A m \in Msgs : outcome[m] # "none") /\ inFlight = 0)
+
+Drains == <>[](Quiescent /\ inFlight = 0 /\ \A m \in Msgs : outcome[m] # "none")
 
 \* role 2: print the environment behaviour when the model has become quiescent
 HistJson == [k \in 1..Len(hist) |->
